@@ -369,6 +369,24 @@ def Table.run (cmp : Cmp) (t : Table) (ops : List Op) (mem : Mem) : List Out × 
   | [] => ([], t, mem)
   | op :: ops => let s := t.step cmp op mem; let rs := Table.run cmp s.2.1 ops s.2.2; (s.1 :: rs.1, rs.2.1, rs.2.2)
 
+open Spec.StrMap (IOp IOut) in
+/-- one call of an iterator program -/
+def Table.iterOp (t : Table) (it : Iter) (op : IOp) (mem : Mem) : IOut × Table × Iter × Mem :=
+  match op with
+  | .next => let r := iterNext t it mem
+             ({ st := r.st, key := r.out.map (·.1), val := r.out.map (·.2) }, t, r.it, r.mem)
+  | .remove w => let r := iterRemove t it w mem
+                 ({ st := r.1, val := r.2.1 }, r.2.2.1, r.2.2.2.1, r.2.2.2.2)
+
+open Spec.StrMap (IOp IOut) in
+def Table.iterRun (t : Table) (it : Iter) (ops : List IOp) (mem : Mem) : List IOut × Table × Iter × Mem :=
+  match ops with
+  | [] => ([], t, it, mem)
+  | op :: ops =>
+    let s := t.iterOp it op mem
+    let rs := Table.iterRun s.2.1 s.2.2.1 ops s.2.2.2
+    (s.1 :: rs.1, rs.2)
+
 /-! ### abstraction and invariant -/
 
 /-- the entries in first-arrival pre-order `self, left, mid, right`, each with the key its path
